@@ -5,7 +5,7 @@
 //!
 //! Line protocol (inputs + choice witnesses only; identities are small integers):
 //!   reset                                  start a new history (all queries of the previous one must be finished)
-//!   get <key> <caller> <one|majority|all|n<k>> [t=<content>] [reg]
+//!   get <key> <caller> <one|majority|all|n<k>> [t=<content>] [reg] [e=<peer.peer...>]   (e = `expected_holders`)
 //!                                          caller ids are consecutive from 0 within a history
 //!   found <qid> <peer> <content> [k<key>]  peer 0 = `PeerRecord.peer == None` (attributed to the driver itself);
 //!                                          k<key>: the record of the reply carries that key (default: the query's key);
@@ -364,6 +364,8 @@ struct CfgInfo {
     quorum: Quorum,
     target: Option<Vec<u8>>,
     is_reg: bool,
+    /// `expected_holders` as peer numbers (0 = the driver itself)
+    expected: Vec<u64>,
     text: String,
 }
 
@@ -539,12 +541,20 @@ impl H {
             "all" => Quorum::All,
             _ => Quorum::N(NonZeroUsize::new(dec(q.strip_prefix('n')?)? as usize)?),
         };
-        let mut cfg = CfgInfo { quorum, target: None, is_reg: false, text: format!("{q} {}", rest.join(" ")) };
+        let mut cfg = CfgInfo { quorum, target: None, is_reg: false, expected: vec![], text: format!("{q} {}", rest.join(" ")) };
         for w in rest {
             if *w == "reg" {
                 cfg.is_reg = true;
             } else if let Some(t) = w.strip_prefix("t=") {
                 cfg.target = Some(self.uni.bytes(t)?);
+            } else if let Some(e) = w.strip_prefix("e=") {
+                // the peers the caller names as holders (`expected_holders`); not part of `text`: what a caller is owed
+                // (quorum, target) does not depend on it
+                let l: Option<Vec<u64>> = if e.is_empty() { Some(vec![]) } else { e.split('.').map(dec).collect() };
+                cfg.expected = l?;
+                if cfg.expected.iter().any(|p| *p > 64) {
+                    return None;
+                }
             } else {
                 return None;
             }
@@ -800,11 +810,19 @@ impl H {
                 }
                 self.history.push(line.to_string());
                 let (tx, rx) = oneshot::channel();
+                let mut holders: HashSet<PeerId> = HashSet::new();
+                for p in cfg.expected.clone() {
+                    let id = self.peer(p).unwrap_or(self.self_peer);
+                    holders.insert(id);
+                }
+                if !holders.is_empty() {
+                    out.count(&format!("get:expected_holders:{}", holders.len()));
+                }
                 let rcfg = GetRecordCfg {
                     get_quorum: cfg.quorum,
                     retry_strategy: None,
                     target_record: cfg.target.clone().map(|v| record(key_of(k), v)),
-                    expected_holders: Default::default(),
+                    expected_holders: holders,
                     is_register: cfg.is_reg,
                 };
                 let r = hook::handle_network_cmd(&mut self.driver, NetworkSwarmCmd::GetNetworkRecord { key: key_of(k), sender: tx, cfg: rcfg });
@@ -953,7 +971,7 @@ impl H {
             get_quorum: cfg.quorum,
             retry_strategy: if k > 1 { Some(ant_protocol::storage::RetryStrategy::N(NonZeroUsize::new(k as usize).expect("nz"))) } else { None },
             target_record: cfg.target.clone().map(|v| record(key.clone(), v)),
-            expected_holders: Default::default(),
+            expected_holders: cfg.expected.clone().into_iter().map(|p| self.peer(p).unwrap_or(self.self_peer)).collect(),
             is_register: cfg.is_reg,
         };
         let (net, k2, c2) = (self.network.clone(), key.clone(), rcfg.clone());
@@ -1361,6 +1379,17 @@ fn corpus() -> Vec<Vec<&'static str>> {
         vec!["reset", "merge r1g.1 r0g.0 r0g.2", "merge r0g.0 r1g.1 r0g.2", "merge r0g.0 r0g.2 r1g.1", "merge r1g.1 r0g.0", "merge r1g.0 r1g.1", "merge r1b.0 r0g.1 r0g.2",
              "merge r0g.0 r2g.1", "merge r2g.1 r0g.0", "merge r1g.3 r2g.1 r0g.0 r2g.4", "merge hr0 r1g.1 r0g.2", "merge r1g.1.6 r0g.2.6 r0g.3"],
         vec!["reset", "get 0 0 n2", "found 0 1 r1g.1", "found 0 2 r0g.0", "found 0 3 r0g.2", "finished 0", "merge r1g.1 r0g.0 r0g.2"],
+        // named holders (`expected_holders`: answering, silent, more or fewer than the quorum) never change the number of
+        // copies required — not while replies arrive (each answering holder leaves the set), not at finished / timeout
+        vec!["reset", "get 0 0 majority e=1.2.3", "found 0 1 hc0", "found 0 2 hc0", "dump", "found 0 3 hc0"],
+        vec!["reset", "get 0 0 majority e=1.2", "found 0 1 hc0", "dump", "found 0 2 hc0", "finished 0"],
+        vec!["reset", "get 0 0 majority e=1.2.3", "found 0 1 hc0", "found 0 2 hc0", "timeout 0"],
+        vec!["reset", "get 0 0 majority e=1.2", "found 0 1 hc0", "timeout 0"],
+        vec!["reset", "get 0 0 n3 e=7", "found 0 1 hc0", "finished 0"],
+        vec!["reset", "get 0 0 n2 e=7.8", "found 0 1 hc0", "found 0 7 hc0"],
+        vec!["reset", "get 0 0 all e=1.2.3.4.5.6", "found 0 1 hc0", "found 0 2 hc0", "found 0 3 hc0", "found 0 4 hc0", "finished 0"],
+        vec!["reset", "get 0 0 n2 e=0.1 t=hc0", "found 0 0 hc0", "found 0 0 hc0", "timeout 0"],
+        vec!["reset", "get 0 0 one e=", "get 0 1 n3 e=1.2", "found 0 2 hc0"],
         // Quorum::N up to the replication factor and beyond: exactly that many distinct peers are needed
         vec!["reset", "get 0 0 n6", "found 0 1 hc0", "found 0 2 hc0", "found 0 3 hc0", "found 0 3 hc0", "found 0 4 hc0", "found 0 5 hc0", "dump", "found 0 6 hc0"],
         vec!["reset", "get 0 0 n6", "found 0 1 hc0", "found 0 2 hc0", "found 0 3 hc0", "found 0 4 hc0", "found 0 5 hc0", "finished 0"],
@@ -1393,6 +1422,15 @@ fn pool(rng: &mut Rng, fam: u64) -> Vec<String> {
     rng.shuffle(&mut v);
     v.truncate(n);
     v
+}
+
+/// ` e=<peers>`: 0..=6 named holders drawn from `0..bound` (answering peers, and with a larger bound silent ones)
+fn gen_expected(rng: &mut Rng, bound: u64) -> String {
+    let mut ps: Vec<u64> = (0..bound.max(1)).collect();
+    rng.shuffle(&mut ps);
+    ps.truncate(rng.below(7) as usize);
+    ps.sort();
+    format!(" e={}", dotted(&ps))
 }
 
 fn gen_quorum(rng: &mut Rng) -> String {
@@ -1438,8 +1476,10 @@ fn gen_saturation(h: &mut H, rng: &mut Rng, out: &mut Out) {
         _ => format!("n{}", rng.range(1, 8)),
     };
     let ncallers = rng.range(1, 3);
+    // half of the saturation histories name holders: among the peers that will answer and among silent ones
+    let named = if rng.chance(1, 2) { gen_expected(rng, 12) } else { String::new() };
     for c in 0..ncallers {
-        run_line(h, out, &format!("get 0 {c} {q}"));
+        run_line(h, out, &format!("get 0 {c} {q}{named}"));
     }
     let main = *rng.pick(&["hc0", "t0.1", "r0g.0", "s0.1.0g", "x0", "t0"]);
     let other = *rng.pick(&["hc1", "t2", "r0g.1", "s0.2.0g", "x1", "t0s"]);
@@ -1612,6 +1652,9 @@ fn gen_history(h: &mut H, rng: &mut Rng, out: &mut Out) {
                 cfg.push_str(" reg");
             }
         }
+        if rng.chance(1, 3) {
+            cfg.push_str(&gen_expected(rng, npeers + 2));
+        }
         let cfg = if same_cfg { cfg_of_key.entry(k).or_insert(cfg).clone() } else { cfg };
         let c = h.callers.len();
         run_line(h, out, &format!("get {k} {c} {cfg}"));
@@ -1744,6 +1787,8 @@ fn corpus_net() -> Vec<&'static str> {
         "netget one t=r0g.1 reg a1 / 1:r0g.1:m fin",
         // plain quorum reads, errors, foreign registers, mixed splits, retries (real back-off sleeps)
         "netget majority t=hc0 a1 / 1:hc0 2:hc0 3:hc0 fin",
+        "netget majority e=1.2.3 a1 / 1:hc0 2:hc0 fin",
+        "netget majority e=1.2 a1 / 1:hc0 to",
         "netget majority t=hc1 a1 / 1:hc0 2:hc0 3:hc0 fin",
         "netget majority a1 / 1:hc0 2:hc0 fin",
         "netget n2 a1 / 1:hc0 2:hc1 to",
@@ -1785,6 +1830,9 @@ fn gen_net(rng: &mut Rng) -> String {
         }
     }
     let _ = reg;
+    if rng.chance(1, 3) {
+        cfg.push_str(&gen_expected(rng, 13));
+    }
     let mut replies: Vec<String> = vec![];
     let agreeing = if rng.chance(2, 3) { need } else { rng.below(need + 1) };
     for p in 1..=agreeing {
